@@ -394,7 +394,10 @@ class Logbook(list):
             1
         """
         startindex, self.buffindex = self.buffindex, len(self)
-        return self.__str__(startindex)
+        text = self.__txt__(startindex, not getattr(self, "header_streamed", False))
+        if startindex == 0 and len(self) > 0 and self.log_header:
+            self.header_streamed = True
+        return "\n".join(text)
 
     def __delitem__(self, key):
         if isinstance(key, slice):
@@ -423,7 +426,7 @@ class Logbook(list):
             chapter.pop(index)
         return super(self.__class__, self).pop(index)
 
-    def __txt__(self, startindex):
+    def __txt__(self, startindex, header=True):
         if len(self) == 0:
             return []
 
@@ -436,7 +439,7 @@ class Logbook(list):
         chapters_txt = {}
         offsets = defaultdict(int)
         for name, chapter in self.chapters.items():
-            chapters_txt[name] = chapter.__txt__(startindex)
+            chapters_txt[name] = chapter.__txt__(startindex, header)
             if startindex == 0:
                 offsets[name] = len(chapters_txt[name]) - len(self)
 
@@ -454,7 +457,7 @@ class Logbook(list):
                 str_line.append(column)
             str_matrix.append(str_line)
 
-        if startindex == 0 and self.log_header:
+        if header and startindex == 0 and self.log_header:
             header = []
             nlines = 1
             if len(self.chapters) > 0:
